@@ -39,16 +39,16 @@ func (b vImpB) J() int  { return b.tag }
 func (c *vImpC) I() int { return c.tag }
 
 const (
-	tS = iota // vS
-	tPS       // *vS
+	tS  = iota // vS
+	tPS        // *vS
 	tName
 	tNum
-	tChan  // chan int (via Set)
-	tI     // vI registered with MapTo
-	tJ     // vJ registered with MapTo
-	tImpA  // vImpA registered with Map
-	tImpB  // vImpB registered with Map
-	tImpC  // *vImpC registered with Map
+	tChan // chan int (via Set)
+	tI    // vI registered with MapTo
+	tJ    // vJ registered with MapTo
+	tImpA // vImpA registered with Map
+	tImpB // vImpB registered with Map
+	tImpC // *vImpC registered with Map
 	nTypes
 )
 
@@ -119,9 +119,9 @@ func vTagOf(t int, v interface{}) int {
 }
 
 type vWorld struct {
-	scopes  []Injector      // scopes[0] is the innermost (request) scope
-	present [][nTypes]bool  // present[s][t]
-	tag     [][nTypes]int   // tag carried by the registration in force
+	scopes  []Injector     // scopes[0] is the innermost (request) scope
+	present [][nTypes]bool // present[s][t]
+	tag     [][nTypes]int  // tag carried by the registration in force
 }
 
 // vBuild creates n nested scopes and registers, for every universe type that
@@ -417,7 +417,6 @@ func VH_C04_apply() {
 	vx.Assert(w.scopes[0].Apply(42) == nil, "C04/Apply: a non-struct is ignored")
 	vx.Observe("apply", err != nil)
 }
-
 
 // ---- harness: "exactly its type" for types that have assignable look-alikes -----
 
